@@ -6,8 +6,8 @@ cd "$(dirname "$0")/.." || exit 2
 bad=0
 for f in seeds/*/regress/*.case; do
     id=$(echo "$f" | cut -d/ -f2)
-    VERIF_REPO=$ORIG ./vcheck replay "$id" "$f" >/dev/null 2>&1; ro=$?
-    ./vcheck replay "$id" "$f" >/dev/null 2>&1; rn=$?
+    VERIF_REPO=$ORIG ./vcheck seedcheck "$id" "$f" >/dev/null 2>&1; ro=$?
+    ./vcheck seedcheck "$id" "$f" >/dev/null 2>&1; rn=$?
     st=ok
     [ "$ro" -eq 0 ] && st="NOT-FAILING-ON-ORIG"
     [ "$rn" -ne 0 ] && st="FAILING-ON-REPO"
